@@ -13,7 +13,11 @@ import sys
 import time
 
 from . import props as P
-from .unit import (ROOT, WORK, Undecided, unit_module, generate, run_verus, line_of)
+from .unit import (ROOT, Undecided, unit_module, generate, run_verus, line_of)
+from . import unit as _unit
+import shutil
+# one scratch directory per invocation, so that checks can run in parallel
+WORK = os.path.join(_unit.WORK, 'run_%d' % os.getpid())
 from .diag import GenMap, classify
 from .tree import Tree
 from . import witness as W
@@ -420,6 +424,9 @@ def main(argv):
     except Undecided as e:
         print('UNDECIDED: property=%s %s' % (prop, e))
         return 2
+    finally:
+        if not os.environ.get('VERIF_KEEP_WORK'):
+            shutil.rmtree(WORK, ignore_errors=True)
 
 
 if __name__ == '__main__':
